@@ -131,7 +131,7 @@ prop("C09", ["PepitVerif/Props/C09.lean", "PepitVerif/Math/Certificate.lean", "P
               stream("collect+cvx (what the pipeline sends and records as sent; the real cvxpy wrapper)", "collect", 80, 1500, env={"PEPV_TEE": "1", "STUBS": "1"}, offset=89),
               stream("resolve (returned dual value rebuilt from the recorded list of sent constraints)", "resolve", 80, 1500, offset=97),
               stream("examples (REAL programs: the operations every shipped example performs, traced at run time over 386 parameter tuples — the model every example hands to the solver is the one the Lean pipeline model builds from the same operations; example run = replay on the library = Lean model)", "examples", 64, 386, offset=173),
-              stream("methods (the example scripts whose whole user-level model is specified in Lean, Model/Methods.lean — gradient-descent contraction, subgradient method, proximal gradient, gradient flow of a strongly convex function, the potential function of gradient descent, gradient flow of a convex function, the second potential function of gradient descent, accelerated gradient flow of a convex function, one Polyak step — at parameter values drawn over the documented ranges: the objects the REAL script builds = the Lean specification the C09Methods theorems are about)", "methods", 24, 400, offset=191)],
+              stream("methods (the example scripts whose whole user-level model is specified in Lean, Model/Methods.lean — gradient-descent contraction, subgradient method, proximal gradient, gradient flow of a strongly convex function, the potential function of gradient descent, gradient flow of a convex function, the second potential function of gradient descent, accelerated gradient flow of a convex function, one Polyak step in distance and in function values — at parameter values drawn over the documented ranges: the objects the REAL script builds = the Lean specification the C09Methods theorems are about)", "methods", 24, 400, offset=191)],
      direct=[oracle("c09_runs", 33, 440), oracle("c03_members", 260, 2600)],
      
      trusted=["independent NumPy implementations of 10 method families (harness/oracles5.py), transcribed from the documented algorithms"],
@@ -142,7 +142,7 @@ prop("C10", ["PepitVerif/Props/C10.lean", "PepitVerif/Props/C09Methods.lean", "P
      streams=[stream("tree (expression algebra the examples are written in)", "tree", 100, 1000, offset=71),
               stream("cls (class constraints the examples rely on, all parameter regimes)", "cls", 100, 1500, offset=101),
               stream("examples (REAL programs: the operations every shipped example performs, traced at run time over 386 parameter tuples — suite tuples and neighbouring tuples of every example; example run = replay on the library = Lean model)", "examples", 64, 386, offset=179),
-              stream("methods (the example scripts whose whole user-level model is specified in Lean, Model/Methods.lean — gradient-descent contraction, subgradient method, proximal gradient, gradient flow of a strongly convex function, the potential function of gradient descent, gradient flow of a convex function, the second potential function of gradient descent, accelerated gradient flow of a convex function, one Polyak step — at parameter values drawn over the documented ranges: the objects the REAL script builds = the Lean specification the C09Methods theorems are about)", "methods", 24, 400, offset=193),
+              stream("methods (the example scripts whose whole user-level model is specified in Lean, Model/Methods.lean — gradient-descent contraction, subgradient method, proximal gradient, gradient flow of a strongly convex function, the potential function of gradient descent, gradient flow of a convex function, the second potential function of gradient descent, accelerated gradient flow of a convex function, one Polyak step in distance and in function values — at parameter values drawn over the documented ranges: the objects the REAL script builds = the Lean specification the C09Methods theorems are about)", "methods", 24, 400, offset=193),
               stream("collect+cvx (an equivalent formulation may lean on what an LMI enforces: the real cvxpy wrapper couples every entry, above and below the diagonal)", "collect", 80, 1500, env={"PEPV_TEE": "1", "STUBS": "1"}, offset=197)],
      direct=[oracle("c10_examples", 40, 103), oracle("c10_refs", 57, 600), oracle("c10_sweeps", 19, 190), oracle("c10_equivalent", 14, 14), oracle("c10_neighbours", 300, 300)],
      trusted=["hand transcription of 19 published closed forms and their validity ranges (lean/PepitModel/Ref.lean), validated against the pinned tree",
